@@ -17,7 +17,7 @@ import (
 
 // input describes one call of the bootstrapping evaluator.
 type input struct {
-	API      string `json:"api"`      // Bootstrap | BootstrapMany | Evaluate
+	API      string `json:"api"`      // Bootstrap | BootstrapMany | Evaluate | EvaluateConjugateInvariant
 	Level    int    `json:"level"`    // level of the input ciphertexts
 	LogSlots int    `json:"logSlots"` // slots of each input ciphertext
 	Batch    int    `json:"batch"`
@@ -97,6 +97,19 @@ func panicSite(stack string) string {
 	return "outside-bootstrapping-package"
 }
 
+// keepPreds filters a "|a|b,c" predicate string down to the listed predicates.
+func keepPreds(preds string, keep ...string) string {
+	out := ""
+	for _, p := range strings.Split(preds, "|") {
+		for _, k := range keep {
+			if p == k {
+				out += "|" + p
+			}
+		}
+	}
+	return out
+}
+
 // tryCall runs f; a panic becomes a violation sig|panic|in:<function>[|predicates].
 func (s *session) tryCall(sig, preds string, f func()) (ok bool) {
 	defer func() {
@@ -112,7 +125,14 @@ func (s *session) tryCall(sig, preds string, f func()) (ok bool) {
 			if len(keep) > 8 {
 				keep = keep[:8]
 			}
-			s.c.Violate(sig+"|panic|in:"+panicSite(st)+preds, fmt.Sprintf("panic: %v (config %s)\n%s", r, s.cf.Name, strings.Join(keep, "\n")), nil)
+			site := panicSite(st)
+			switch site {
+			case "Evaluator.pack":
+				preds = keepPreds(preds, "level>0")
+			case "Evaluator.unpack":
+				preds = keepPreds(preds, "on-shallow-copy", "N1<N2")
+			}
+			s.c.Violate(sig+"|panic|in:"+site+preds, fmt.Sprintf("panic: %v (config %s)\n%s", r, s.cf.Name, strings.Join(keep, "\n")), nil)
 		}
 	}()
 	f()
@@ -234,6 +254,12 @@ func pow2Scale(e int) rlwe.Scale {
 // inputScale returns the scale of the input ciphertexts: level >= 1 -> the default scale; level 0 ->
 // a power of two not above Q0/MessageRatio, as Evaluate documents.
 func (s *session) inputScale(in input) rlwe.Scale {
+	if in.Scale == "non-pow2" {
+		// level >= 1 only: "the input scale does not need to be an exact power of two"
+		f := new(big.Float).SetPrec(128).SetFloat64(1.37)
+		d := s.res.DefaultScale()
+		return rlwe.NewScale(f.Mul(f, &d.Value))
+	}
 	if in.Level > 0 || in.Scale == "default" {
 		return s.res.DefaultScale()
 	}
@@ -364,6 +390,17 @@ func (s *session) run(in input) {
 			if o, err = ev.Evaluate(&cts[0]); err == nil && o != nil {
 				outs = []rlwe.Ciphertext{*o}
 			}
+		case "EvaluateConjugateInvariant":
+			var l, rr, second *rlwe.Ciphertext
+			if nct > 1 {
+				second = &cts[1]
+			}
+			if l, rr, err = ev.EvaluateConjugateInvariant(&cts[0], second); err == nil && l != nil {
+				outs = []rlwe.Ciphertext{*l}
+				if rr != nil {
+					outs = append(outs, *rr)
+				}
+			}
 		default:
 			outs, err = ev.BootstrapMany(cts)
 		}
@@ -398,8 +435,13 @@ func (s *session) run(in input) {
 	wantScale := s.res.DefaultScale()
 	iterMode := s.cf.Iter != nil || s.res.PrecisionMode() == ckks.PREC128
 	nonDefaultScale := scale.Cmp(s.res.DefaultScale()) != 0
+	// message-error signatures additionally carry the scale class of the input
+	msgPreds := preds
 	if iterMode && nonDefaultScale {
-		preds += "|iterated,input-scale!=default"
+		msgPreds += "|iterated,input-scale!=default"
+	}
+	if in.Scale == "non-pow2" {
+		msgPreds += "|input-scale-not-a-power-of-two"
 	}
 	for i := range outs {
 		o := &outs[i]
@@ -471,7 +513,7 @@ func (s *session) run(in input) {
 			M := maxAbs(msgs[i].v)
 			c.Count("precision_checks", 1)
 			c.Max("max_err_minus_floor_log2_x10", int64(10*(math.Log2(e+1e-300)-s.floor)))
-			c.Check(e <= thr, sig+"|message-error-above-announced-precision"+preds, func() string {
+			c.Check(e <= thr, sig+"|message-error-above-announced-precision"+msgPreds, func() string {
 				return fmt.Sprintf("ciphertext %d/%d: max |out - model| = 2^%.2f > 2^%.2f (frozen floor of the set 2^%.1f + %g bits, documented sin distortion of this message 2^%.2f); |message|max=%.3g, |out-in|=2^%.2f (config %s, input %+v)",
 					i, nct, math.Log2(e), math.Log2(thr), s.floor, marginBits, math.Log2(D+1e-300), M, math.Log2(raw+1e-300), s.cf.Name, in)
 			})
